@@ -558,6 +558,19 @@ def use_helper(n: int) -> int:
 '''
 
 
+# a construction site textually ABOVE the newtype's declaration (the hook table is filled before any body is lowered)
+CTOR_PROGRAM_EARLY = '''def early(n: int) -> int:
+    a = Attempts(n)
+    return 0
+
+type Attempts = newtype int:
+    def from_underlying(n: int) -> Result[Attempts, str]:
+        if n < 0:
+            return Err("negative")
+        return Ok(Attempts(n))
+'''
+
+
 def native_ctor(r, why, log_dir):
     import kani
     os.makedirs(log_dir, exist_ok=True)
@@ -576,6 +589,15 @@ def native_ctor(r, why, log_dir):
               and m_raw is not None and "from_underlying" not in m_raw.group(1) and re.search(r"Pair\{a:x,b:y,?\}", src) is not None
               and m_other is not None and "Email::from_underlying(" in m_other.group(1)
               and "return_twice(n)" in src.replace("n.clone()", "n"))
+        path2 = os.path.join(log_dir, "ctor_replay_early.incn")
+        with open(path2, "w") as fh:
+            fh.write(CTOR_PROGRAM_EARLY)
+        rc2, out2, _, _to2 = common.run([binp, "emitrust", path2], timeout=120)
+        src2 = re.sub(r"\s+", "", out2)
+        m_early = re.search(r"fnearly\(n:i64\)->i64\{(.*?)\}", src2)
+        if not ("RUST-END" in out2 and m_early is not None and "Attempts::from_underlying(" in m_early.group(1)):
+            broken = True
+            texts.append(f"[{prof}] early() (construction above the declaration): {m_early.group(1)[:120] if m_early else out2.strip()[-160:]}")
         if not ok:
             broken = True
             texts.append(f"[{prof}] build(): {m_build.group(1)[:120] if m_build else None}; make_raw(): {m_raw.group(1)[:80] if m_raw else None}; Name.to_email(): {m_other.group(1)[:120] if m_other else None}; ...{out.strip()[-200:] if 'RUST-END' not in out else ''}")
